@@ -23,6 +23,10 @@ ASSUMPTIONS = ["dyadic forecasts / observations / thresholds / weights so float 
                "storage dtypes (uint8/16/32, int8/16/32/64, float32/64 for fcst / obs / threshold arrays; Python int / float / numpy "
                "scalar thresholds): the Lean Spec is evaluated on the exact VALUES (oracle only, the model has no dtypes); every "
                "threshold / discount value is representable in the operands' dtypes (non-negative next to unsigned data)",
+               "infinite forecasts / observations / thresholds: expected = Spec.Firm.firmCaseX, the stated product "
+               "w*(1-alpha)*scale*1[false alarm] + w*alpha*scale*1[miss] in extended-real Fl arithmetic (0*inf = nan, inf-inf = nan): "
+               "with discounting NaN is EXPECTED where the product is inf*0 (notes/C12.md N3), the penalty or 0 elsewhere; "
+               "FIRM = sum w*Murphy is checked on them only where both sides are defined (murphy_skip_inf)",
                "severity labels are distinct, all str or all int, in ANY order (sent to Lean as their str())",
                "weights=None (apply_weights belongs to C03); equal coordinate label sets in any stored order",
                "dimension-name arguments are freshly built str objects (F10 regression guard)"]
@@ -34,6 +38,8 @@ MANIFEST = dict(
          "s = 1 / min(distance, d) / distance for discount 0 / finite / inf (0 means no discount), firm = over + under for all "
          "inputs, NaN propagation, the per-case value is the weighted sum over thresholds, and with 'lower' it coincides with the "
          "weighted sum of the Murphy quantile / Huber(a=d) / expectile elementary scores computed by murphy_impl.py's kernels "
+         "(without discount the kernel equals the extended-real Spec for EVERY forecast / observation / threshold incl. +-inf, "
+         "with any discount for an infinite forecast against finite observation and threshold: Props/C12.lean section 6) "
          "(with 'upper': their left limit theta -> t from below, for every discount kind); a risk-matrix case is the double sum of weight*p (forecast at/above "
          "p, event absent) and weight*(1-p) (below p, event present), NaN anywhere gives NaN (skipna=False read off the source); "
          "matrix_weights_to_array labels row i with the i-th largest threshold for any order of the supplied coordinates; "
@@ -55,6 +61,9 @@ MANIFEST = dict(
          "from the sorted order), and risk_matrix_score with the weights built by either constructor = the Lean double sum over "
          "(i-th largest threshold, j-th label as given); the implementation is compared with the Lean Spec through the driver. "
          "FIRM on integer / unsigned / float32 storage: Lean Spec on the values (oracle only). "
+         "FIRM with +-inf forecasts / observations / thresholds: Lean Spec firmCaseX (product form in Fl arithmetic) through the "
+         "driver, the translated kernel in the model already computes in Fl; discounting with an infinite observation / threshold "
+         "gives NaN by inf*0 in Spec and code alike (recorded as N3, not failed). "
          "weights= (apply_weights) belongs to C03.",
     technique="Lean 4 theorems over translator-regenerated kernels (two modules tied to a third through C11) + hand model; "
               "differential correspondence; exact-rational Spec oracle; relation FIRM = sum w * murphy_score between implementation runs",
@@ -65,6 +74,10 @@ RULE = ("FIRM: 2-D (a x b) dyadic fcst/obs (30 % obs copied from fcst), 1-3 thre
         "np.int64 / np.uint8 / np.float32 scalar, array of dtype int64 / uint8 / uint16 / int8 / float32 / float64) x discount "
         "(0 / finite, int or float / inf) cycled so every combination occurs, fcst dtype = obs dtype 50 %, small clustered integer "
         "values (dyadic in float storage), a planted near false alarm 60 % / near miss 30 %, expected = Lean Spec on the values; "
+        "infinite-value stream: +-inf (40 % of the entries of the chosen slot, at least one) in fcst / obs / scalar thresholds (+inf top, "
+        "-inf bottom) / array thresholds / fcst+thresholds / everywhere x discount 0, finite, 0, inf cycled so every combination "
+        "occurs, fcst and obs infinite at the same point, thresholds equal to an infinite fcst / obs, NaN 0-12 %, both assignments, "
+        "expected = Lean Spec firmCaseX in extended-real arithmetic, plus FIRM = sum w * Murphy where both sides are defined; "
         "severity labels: docstring families / random str or int labels whose given order differs from the sorted order in ~2/3 "
         "of the draws, probability thresholds in random order; risk matrix: 1-3 severity categories x 1-3 probability thresholds, "
         "fcst copied from a threshold 50 %, obs in {0,1,nan}; guards: fixed valid base with every parameter set exactly on / just "
@@ -218,6 +231,8 @@ def firm_compare(c, res, source):
     tags = {"d": core.fl_str(c["d"]), "mode": c["mode"], "source": source}
     if "odt" in c:
         tags.update(fcst_dtype=c["fdt"], obs_dtype=c["odt"], thresholds="+".join(sorted({th_kind(t) for t in c["thresholds"]})))
+    if "inf_slot" in c:
+        tags.update(input_class="infinite", inf_slot=c["inf_slot"])
     try:
         r_all = call_firm(c, "none")
         r_red = r_all if c["reduce"] == "none" else call_firm(c, c["reduce"])
@@ -253,9 +268,10 @@ def firm_compare(c, res, source):
     return fails
 
 
-def firm_vs_murphy(c):
+def firm_vs_murphy(c, skip=None):
     """relation between implementation runs: FIRM = sum_j w_j * Murphy elementary score at theta = t_j
-    (lower), or its left limit (upper) obtained by affine extrapolation from t - eps and t - 2 eps"""
+    (lower), or its left limit (upper) obtained by affine extrapolation from t - eps and t - 2 eps;
+    skip(variable index 0..2, i, j) -> True where one of the two sides is not defined (infinite inputs, see murphy_skip_inf)"""
     from scores.continuous import murphy_score
     fails = []
     f, o, ths, ws = firm_inputs(c)
@@ -279,10 +295,13 @@ def firm_vs_murphy(c):
             for v in tot:
                 tot[v] = tot[v] + w * m[v]
         r = call_firm(c, "none")
-    for fv, mv in (("firm_score", "total"), ("overforecast_penalty", "overforecast"), ("underforecast_penalty", "underforecast")):
+    for k, (fv, mv) in enumerate((("firm_score", "total"), ("overforecast_penalty", "overforecast"),
+                                  ("underforecast_penalty", "underforecast"))):
         a = r[fv].transpose("a", "b").values
         b = tot[mv].sortby(["a", "b"]).transpose("a", "b").values
         for idx in np.ndindex(a.shape):
+            if skip is not None and skip(k, idx[0], idx[1]):
+                continue
             if not core.close_ff(a[idx], b[idx]):
                 fails.append(("firm." + fv, "firm!=sum-w*murphy", float(a[idx]), float(b[idx]),
                               {"d": core.fl_str(d), "mode": c["mode"], "functional": fn, "index": list(idx)}))
@@ -442,6 +461,169 @@ def run_firm_batch(ctx, batch, kind, op, n, murphy=False, mode=None, cases=None)
             for site, sig, ob, ex, tags in firm_vs_murphy(c):
                 ctx.fail(batch, kind, site, sig, dict(c, check="firm-murphy"), observed=ob, expected=ex, tags=tags,
                          theorem="firm_lower_eq_murphy")
+
+
+# ---- infinite values: +inf / -inf forecasts, observations and category thresholds are legal floats (a forecast above every
+#      category, an observation off the scale, a +inf top threshold where the category cannot occur, a -inf bottom threshold).
+#      Expected = Spec.Firm.firmCaseX (op c12.firm_x): the stated product w*(1-alpha)*scale*1[false alarm] + w*alpha*scale*1[miss]
+#      in the extended-real arithmetic of SV.Fl (0*inf = nan): without discount the penalty or 0 everywhere (NaN only for a NaN
+#      operand); with a discount NaN exactly where the product is inf*0 (tagged), the penalty or 0 elsewhere.
+INF_SLOTS = ["fcst", "obs", "thr-scalar", "thr-array", "fcst+thr", "all"]
+INF_DK = ["0", "finite", "0", "inf"]
+
+
+def gen_firm_inf(rng, k):
+    """k-th case of the infinite-value stream: where the infinities sit (INF_SLOTS) and the kind of discount (INF_DK) cycle with k,
+    so every combination occurs every 24 cases; slot 'fcst' with a discount is the class where the discounted expression is
+    defined everywhere (finite observations and thresholds)"""
+    slot = INF_SLOTS[k % len(INF_SLOTS)]
+    dk = INF_DK[(k // len(INF_SLOTS)) % len(INF_DK)]
+    na, nb = rng.choice([1, 2, 3]), rng.choice([1, 2, 3, 4])
+    pool = [rng.randint(-8, 8) / rng.choice([1, 2, 4]) for _ in range(rng.randint(2, 5))]
+    inf = lambda: rng.choice([core.INF, core.INF, -core.INF])      # noqa: E731
+    fc = [[rng.choice(pool) for _ in range(nb)] for _ in range(na)]
+    ob = [[(fc[i][j] if rng.random() < 0.3 else rng.choice(pool)) for j in range(nb)] for i in range(na)]
+    pn = rng.choice([0, 0, 0.12])
+    for grid, on in ((fc, slot in ("fcst", "fcst+thr", "all")), (ob, slot in ("obs", "all"))):
+        for i in range(na):
+            for j in range(nb):
+                if on and rng.random() < 0.4:
+                    grid[i][j] = inf()
+                elif rng.random() < pn:
+                    grid[i][j] = NAN
+        if on and not any(math.isinf(v) for row in grid for v in row):
+            grid[rng.randrange(na)][rng.randrange(nb)] = inf()
+    if slot == "all" and rng.random() < 0.5:      # forecast and observation infinite at the same point (same or opposite sign)
+        i, j = rng.randrange(na), rng.randrange(nb)
+        fc[i][j], ob[i][j] = inf(), inf()
+    nt = rng.randint(1, 3)
+    thr_inf = slot in ("thr-scalar", "thr-array", "fcst+thr", "all")
+
+    def shape(kind, draw):
+        if kind == "a":
+            return [draw() for _ in range(na)]
+        if kind == "b":
+            return [draw() for _ in range(nb)]
+        return [[draw() for _ in range(nb)] for _ in range(na)]
+
+    def fin_t():
+        return rng.choice(pool) + (0 if rng.random() < 0.55 else rng.choice([-0.5, 0.5, 0.25, -0.25, 1]))
+    ths = []
+    for n in range(nt):
+        # the top threshold tends to +inf, the bottom one to -inf (with one threshold: either)
+        sign = core.INF if (n == nt - 1 and (nt > 1 or rng.random() < 0.6)) else (-core.INF if n == 0 else inf())
+        if slot == "thr-scalar" or (slot in ("fcst+thr", "all") and rng.random() < 0.5) or not thr_inf:
+            kind = "scalar" if (thr_inf or rng.random() < 0.5) else rng.choice(["a", "b", "ab"])
+            if kind == "scalar":
+                ths.append({"kind": "scalar", "v": sign if (thr_inf and (n in (0, nt - 1)) and rng.random() < 0.7) else fin_t()})
+            else:
+                ths.append({"kind": kind, "v": shape(kind, lambda: NAN if rng.random() < 0.05 else fin_t())})
+        else:
+            kind = rng.choice(["a", "b", "ab"])
+
+            def tdraw(sign=sign):
+                r = rng.random()
+                return sign if r < 0.35 else (-sign if r < 0.42 else (NAN if r < 0.47 else fin_t()))
+            ths.append({"kind": kind, "v": shape(kind, tdraw)})
+    if thr_inf and not any(isinstance(v, float) and math.isinf(v) for t in ths for v in np.ravel(t["v"])):
+        t = rng.choice(ths)
+        if t["kind"] == "scalar":
+            t["v"] = inf()
+        else:
+            flat = np.array(t["v"], dtype=float)
+            flat[tuple(rng.randrange(n_) for n_ in flat.shape)] = inf()
+            t["v"] = flat.tolist()
+
+    def wdraw():
+        return NAN if rng.random() < 0.08 else rng.choice([0.5, 1.0, 2.0, 3.0, 0.25])
+    ws = []
+    for _ in range(nt):
+        kind = rng.choice(["scalar", "scalar", "scalar", "a", "b", "ab"])
+        ws.append({"kind": kind, "v": rng.choice([0.5, 1.0, 2.0, 3.0, 0.25])} if kind == "scalar" else {"kind": kind, "v": shape(kind, wdraw)})
+    d = rng.choice([0, 0.0]) if dk == "0" else (rng.choice([0.25, 0.5, 1.0, 2.0, 4.0]) if dk == "finite" else core.INF)
+    perm_a = list(range(na)); rng.shuffle(perm_a)
+    perm_b = list(range(nb)); rng.shuffle(perm_b)
+    return dict(fcst=fc, obs=ob, alpha=rng.choice([0.25, 0.5, 0.75, 0.125, 0.875]), d=d, mode=rng.choice(["lower", "upper"]),
+                thresholds=ths, weights=ws, perm_a=perm_a, perm_b=perm_b, reduce=rng.choice(["everything", "a", "none", "none"]),
+                inf_slot=slot)
+
+
+def _isinf(v):
+    return isinstance(v, (int, float)) and math.isinf(v)
+
+
+def murphy_skip_inf(c, res0):
+    """where FIRM = sum w * Murphy is not checked on the infinite-value stream (one of the two sides is not defined there):
+    * the FIRM expression itself is undefined for this variable at this point: the Spec gives NaN although no operand is NaN
+      (inf*0 with discounting, or the distance inf - inf of an infinite observation from an equal infinite threshold) — the
+      Murphy side hides that behind its `.fillna(0)`;
+    * an infinite forecast with the quantile / Huber kernels of murphy_impl.py (they start from `fcst * 0.0`);
+    * 'upper' (left limit by extrapolation from t - eps, t - 2 eps): an infinite threshold has no such neighbours, and with
+      d = inf an infinite observation makes both neighbours infinite"""
+    nb = len(c["fcst"][0])
+    dinf = _isinf(c["d"])
+
+    def operands(i, j):
+        return [c["fcst"][i][j], c["obs"][i][j]] + [_at(x, i, j) for x in c["thresholds"] + c["weights"]]
+
+    def skip(k, i, j):
+        if res0["cases"][i * nb + j][k] == "nan" and not any(core.is_nan(v) for v in operands(i, j)):
+            return True
+        if _isinf(c["fcst"][i][j]) and not dinf:
+            return True
+        if c["mode"] == "upper" and (any(_isinf(_at(t, i, j)) for t in c["thresholds"]) or (dinf and _isinf(c["obs"][i][j]))):
+            return True
+        return False
+    return skip
+
+
+def tag_firm_inf(ctx, c, res0):
+    ctx.tag("firm-inf:slot=" + c["inf_slot"])
+    ctx.tag("firm-inf:d=" + ("0" if not c["d"] else "inf" if _isinf(c["d"]) else "finite"))
+    na, nb = len(c["fcst"]), len(c["fcst"][0])
+    tv = [(_at(t, i, j), c["fcst"][i][j], c["obs"][i][j]) for t in c["thresholds"] for i in range(na) for j in range(nb)]
+    if any(t == core.INF for t, _, _ in tv):
+        ctx.tag("firm-inf:threshold=+inf")
+    if any(t == -core.INF for t, _, _ in tv):
+        ctx.tag("firm-inf:threshold=-inf")
+    if any(_isinf(t) and t == f for t, f, _ in tv):
+        ctx.tag("firm-inf:threshold==fcst==inf")
+    if any(_isinf(t) and t == o for t, _, o in tv):
+        ctx.tag("firm-inf:threshold==obs==inf")
+    if any(_isinf(f) and _isinf(o) for _, f, o in tv):
+        ctx.tag("firm-inf:fcst-and-obs-infinite")
+    if any(x in ("inf", "-inf") for e in res0["cases"] for x in e):
+        ctx.tag("firm-inf:infinite-score-expected")
+    if c["d"]:
+        if res0["cases"] != res0["dec"]:
+            # the stated product is inf*0 = nan although the decision (false alarm / miss / neither) is clear: notes/C12.md N3
+            ctx.tag("firm-inf:discount-inf*0-nan-expected (notes/C12.md N3)")
+        else:
+            ctx.tag("firm-inf:discount-well-defined")
+
+
+def run_firm_inf_batch(ctx, batch, kind, n, murphy=False):
+    k0 = ctx.rng.randrange(len(INF_SLOTS) * len(INF_DK))
+    cs = [gen_firm_inf(ctx.rng, k0 + k) for k in range(n)]
+    op = "c12.firm_x" if kind == "property" else "c12.firm"
+    ops, spans = [], []
+    for c in cs:
+        o = firm_ops(c, op)
+        spans.append((len(ops), len(ops) + len(o)))
+        ops += o
+    res = core.run_driver("C12", ops)
+    xres = res if kind == "property" else core.run_driver("C12", [firm_ops(c, "c12.firm_x")[0] for c in cs])
+    for n_, (c, (lo, hi)) in enumerate(zip(cs, spans)):
+        ctx.case(batch, c, nontrivial=firm_nontrivial(c, res[lo:hi]))
+        tag_firm(ctx, c)
+        tag_firm_inf(ctx, c, xres[lo] if kind == "property" else xres[n_])
+        for site, sig, ob, ex, tags in firm_compare(c, res[lo:hi], "spec-extended-reals" if kind == "property" else "model"):
+            ctx.fail(batch, kind, site, sig, dict(c, check="firm-x"), observed=ob, expected=ex, tags=tags,
+                     theorem="over_nodiscount_all / firmCaseX" if kind == "property" else None)
+        if murphy:
+            for site, sig, ob, ex, tags in firm_vs_murphy(c, murphy_skip_inf(c, res[lo])):
+                ctx.fail(batch, kind, site, sig, dict(c, check="firm-x-murphy"), observed=ob, expected=ex,
+                         tags=dict(tags, input_class="infinite", inf_slot=c["inf_slot"]), theorem="firm_lower_eq_murphy")
 
 
 # ---- malformed / boundary stream of firm: every parameter exactly ON its boundary, one fault at a time
@@ -1123,6 +1305,7 @@ def scaling_spec(c):
 def correspondence(ctx):
     run_firm_batch(ctx, "impl-vs-model:firm", "correspondence", "c12.firm", ctx.n(120, 2500))
     run_firm_dtype_batch(ctx, "impl-vs-model:firm-storage-dtypes", "correspondence", "c12.firm", ctx.n(24, 400))
+    run_firm_inf_batch(ctx, "impl-vs-model:firm-infinite", "correspondence", ctx.n(18, 150))
     firm_guard_batch(ctx, "impl-vs-model:firm-guards", "correspondence", ctx.n(60, 600))
     rms = [gen_rm(ctx.rng) for _ in range(ctx.n(120, 2500))]
     res = core.run_driver("C12", [rm_op(c) for c in rms])
@@ -1177,6 +1360,9 @@ def oracle(ctx, boost):
     # storage dtypes of fcst / obs / thresholds (uint8 .. float32; thresholds as Python ints, floats, numpy scalars, arrays),
     # discount 0 / finite / inf, both assignments: expected = the Lean Spec on the VALUES
     run_firm_dtype_batch(ctx, "impl-vs-spec:firm-storage-dtypes", "property", "c12.firm_spec", ctx.n(72, 1500) * (2 if boost else 1))
+    # +inf / -inf forecasts, observations, thresholds (scalar and array; +inf top, -inf bottom), discount 0 / finite / inf, both
+    # assignments: expected = the Lean Spec in extended-real arithmetic (firmCaseX); FIRM = sum w * Murphy where both are defined
+    run_firm_inf_batch(ctx, "impl-vs-spec:firm-infinite", "property", ctx.n(48, 500) * (2 if boost else 1), murphy=True)
     if boost:
         for mode in ("lower", "upper"):
             run_firm_batch(ctx, "impl-vs-spec:firm", "property", "c12.firm_spec", 80, murphy=True, mode=mode)
@@ -1188,6 +1374,8 @@ def oracle(ctx, boost):
             ctx.tag("rm:nan-in-case")
         if any(f in c["probs"] for row in c["fcst"] for f in row):
             ctx.tag("rm:fcst==threshold")
+        if any(f in (0.0, 1.0) for row in c["fcst"] for f in row):
+            ctx.tag("rm:fcst-on-0/1-boundary")
         tag_labels(ctx, "rm", c["sev"], c["probs"])
         for site, sig, ob, ex, tags in rm_compare(c, r, "spec"):
             ctx.fail("impl-vs-spec:risk_matrix_score", "property", site, sig, dict(c, check="rm"), observed=ob, expected=ex,
@@ -1294,6 +1482,12 @@ def replay(ctx, payload):
         return bool(firm_compare(case, res, "spec"))
     if chk == "firm-murphy":
         return bool(firm_vs_murphy(case))
+    if chk == "firm-x":
+        res = core.run_driver("C12", firm_ops(case, "c12.firm_x"))
+        return bool(firm_compare(case, res, "spec-extended-reals"))
+    if chk == "firm-x-murphy":
+        res = core.run_driver("C12", firm_ops(case, "c12.firm_x"))
+        return bool(firm_vs_murphy(case, murphy_skip_inf(case, res[0])))
     if chk == "rm":
         res = core.run_driver("C12", [rm_op(case)])
         return bool(rm_compare(case, res[0], "spec"))
